@@ -3,6 +3,7 @@
 # Every ./check run rebuilds what it needs from /repo's working tree anyway; this warms the caches.
 cd "$(dirname "$0")"
 export CARGO_NET_OFFLINE=true
+export CARGO_TARGET_DIR="$(pwd)/.build/cargo"
 mkdir -p .build evidence replays
 for t in translator/gen_*.py; do python3 "$t" || echo "setup: translator $t failed"; done
 fail=0
